@@ -31,6 +31,7 @@ func init() {
 			{Name: "adjoin-pair-swapped", File: f, Old: "\tresult = []any{ret0, ret1}\n\treturn\n}\n\nfunc (p *gAdjoin) First", New: "\tresult = []any{ret1, ret0}\n\treturn\n}\n\nfunc (p *gAdjoin) First", Expect: "adjoin/pair"},
 			{Name: "adjoin-gap-allowed", File: f, Old: "\tif src[n-1].End() != src[n].Pos {", New: "\tif src[n-1].End() > src[n].Pos {", Expect: "adjoin/touching"},
 			{Name: "repeat1-empty-ok", File: f, Old: "\tn, ret0, err := g.Match(src, ctx)\n\tif err != nil {\n\t\treturn\n\t}\n\n\trets := make([]any, 1, 2)", New: "\tn, ret0, err := g.Match(src, ctx)\n\tif err != nil {\n\t\treturn 0, []any{}, nil\n\t}\n\n\trets := make([]any, 1, 2)", Expect: "repeat1/first-failure-fails"},
+			{Name: "class-ignores-keyword-literal", File: f, Old: "\t\tcase *MatchToken:\n\t\t\tif n.Tok == me {\n\t\t\t\treturn true\n\t\t\t}\n\t\tcase token.Token:\n\t\t\tif n == me {", New: "\t\tcase *MatchToken:\n\t\tcase token.Token:\n\t\t\tif n == me {", Expect: "conflict/class-vs-literal"},
 			{Name: "repeat0-drops-result", File: f, Old: "\t\trets = append(rets, ret1)\n\t\tn += n1\n\t\tsrc = src[n1:]", New: "\t\tif ret1 != nil {\n\t\t\trets = append(rets, ret1)\n\t\t}\n\t\tn += n1\n\t\tsrc = src[n1:]", Expect: "repeat0/accumulates-every-result"},
 		},
 	})
@@ -79,6 +80,34 @@ func runC29(c *core.Check) {
 			c.Decide(ok, "choice", "first-success-returns", loop.Pos(), "returns inside the loop as soon as err == nil", "Choices.Match no longer returns as soon as an option matches without error (the plain `err == nil` alternative of the in-loop return is gone): a later option can win over an earlier one that matched — the choice is no longer ordered")
 		}
 	}
+	// ---------- first-set conflicts: an alternative may end the choice after consuming input (stops[i]) only if no later
+	// alternative can start with the same token; a token class must therefore conflict with the same class AND with any
+	// literal of that token kind (a keyword literal is scanned as an IDENT token), a literal with the same literal
+	conflictArm := func(fd *ast.FuncDecl, typ string) string {
+		out := ""
+		ast.Inspect(fd.Body, func(n ast.Node) bool {
+			cc, ok := n.(*ast.CaseClause)
+			if !ok || len(cc.List) != 1 || core.ExprStr(cc.List[0]) != typ {
+				return true
+			}
+			out = nows(nodeText(&ast.BlockStmt{List: cc.Body}))
+			return true
+		})
+		return out
+	}
+	if fd := get("hasConflictToken"); fd != nil {
+		c.Decide(conflictArm(fd, "*MatchToken") == "ifn.Tok==me;returntrue;", "conflict", "class-vs-literal", fd.Pos(), "a token class conflicts with every literal of that token kind", "hasConflictToken no longer reports a conflict between a token class and a later literal of the same token kind: `IDENT … | \"if\" …` ends the choice after the IDENT alternative consumed the keyword, so the keyword alternative is never tried — the choice is no longer ordered")
+		c.Decide(conflictArm(fd, "token.Token") == "ifn==me;returntrue;", "conflict", "class-vs-class", fd.Pos(), "a token class conflicts with the same class", "hasConflictToken no longer reports a conflict between two alternatives starting with the same token class")
+	}
+	if fd := get("hasConflictMatchToken"); fd != nil {
+		c.Decide(conflictArm(fd, "*MatchToken") == "ifn.Tok==me.Tok&&n.Lit==me.Lit;returntrue;", "conflict", "literal-vs-literal", fd.Pos(), "a literal conflicts with the same literal", "hasConflictMatchToken no longer reports a conflict between two alternatives starting with the same literal")
+	}
+	if fd := get("Choices.CheckConflicts"); fd != nil {
+		txt := nows(nodeText(fd.Body))
+		ok := strings.Contains(txt, "at:=conflictWith(me,firsts,i+1);") && strings.Contains(txt, "ifat>=0;") && strings.Contains(txt, "stops[i]=true;")
+		c.Decide(ok, "conflict", "stops-only-without-conflict", fd.Pos(), "stops[i] is set only when alternative i conflicts with no later alternative", "CheckConflicts no longer sets stops[i] exactly when alternative i has no first-set conflict with a later alternative")
+	}
+
 	// ---------- sequence
 	if fd := get("gSequence.Match"); fd != nil {
 		txt := nows(nodeText(fd.Body))
